@@ -219,14 +219,34 @@ def raptor_race(ctx, res, rng, idx):
         pair = SchedulerPair(env, gated=False)
         pair.start()
         from ..core import YieldLock
-        pair.child._raptor_lock = YieldLock(pair.child._raptor_lock,
-                                            case['seed'], '_raptor_lock')
         uids = list()
         n    = 0
         reg_msg = {'cmd': 'register_raptor_queue',
                    'arg': {'name': 'raptor.0', 'queue': 'raptor_q',
                            'addr': 'mem://raptor/queue'}}
-        reg_when = crng.choice(['before', 'after', 'after', 'after-nap'])
+        reg_when = crng.choice(['before', 'after', 'after', 'after-nap',
+                                'at-lock', 'at-lock'])
+        gate_st  = {'armed': False, 'fired': False}
+
+        def gate():
+            # 'at-lock': the master's registration is handled exactly while
+            # the scheduling loop is about to enter its raptor section (it
+            # was preempted there) - whatever the loop decided before that
+            # point is stale now
+            if reg_when != 'at-lock' or gate_st['fired'] or \
+               not gate_st['armed'] or mt.current_thread() is not pair.thread:
+                return
+            gate_st['fired'] = True
+            env.publish(rpc.CONTROL_PUBSUB, reg_msg)
+            t_end = time.time() + 0.5
+            while 'raptor.0' not in pair.child._raptor_queues and \
+                    time.time() < t_end:
+                time.sleep(0.0005)
+            res.count('raptor_registrations_at_lock')
+
+        pair.child._raptor_lock = YieldLock(pair.child._raptor_lock,
+                                            case['seed'], '_raptor_lock',
+                                            gate=gate)
         for b in range(case['n_bulks']):
             if b == case['register_after'] and reg_when == 'before':
                 env.publish(rpc.CONTROL_PUBSUB, reg_msg)
@@ -240,14 +260,22 @@ def raptor_race(ctx, res, rng, idx):
                      'named_env': '', 'app_slots': False,
                      'raptor_id': crng.choice(case['ids'])}
                 bulk.append(task_dict(t))
+            if b == case['register_after']:
+                gate_st['armed'] = True
             env.put(rpc.AGENT_SCHEDULING_QUEUE, bulk)
             pair.intake()
-            if b == case['register_after'] and reg_when != 'before':
+            if b == case['register_after'] and reg_when in ('after',
+                                                            'after-nap'):
                 # the master registers while the loop is busy with this bulk
                 if reg_when == 'after-nap':
                     time.sleep(crng.choice([0.0002, 0.0005, 0.001]))
                 env.publish(rpc.CONTROL_PUBSUB, reg_msg)
             time.sleep(crng.choice([0, 0.0005, 0.002, 0.004]))
+
+        if reg_when == 'at-lock' and not gate_st['fired']:
+            # the loop never entered its raptor section after the chosen bulk
+            gate_st['fired'] = True
+            env.publish(rpc.CONTROL_PUBSUB, reg_msg)
 
         # quiescence: the loop is idle when its input queue stays empty and
         # the counts below do not move any more
